@@ -603,7 +603,9 @@ def m_c18(out) -> list[Violation]:
                 continue
             crashed_exec = sum(1 for (a, r) in zip(out["actions"], out["results"]) if a[0] == "X" and r.get("crashed") and r.get("polled") == "RunTask")
             execs = sum(1 for e in out["ledger"] if e["ref"] == ref and e["task"] == t)
-            if execs > 1 + nsig + crashed_exec:
+            # every re-arm of the stage by a jump loop lets the task run once more, signal or not
+            rearms = sum(1 for row in out["audit"] if row["kind"] == "stage" and row["new"] == "NOT_STARTED" and ref_of(out, row["ent"]) == ref)
+            if execs > 1 + nsig + crashed_exec + rearms:
                 vs.append(Violation(
                     what=f"the suspending task {(ref, t)} was executed {execs} times although only {nsig} signal(s) were sent: a signal resumed the stage more than once",
                     signature="signal-resumed-twice", replay=_replay(out)))
